@@ -33,6 +33,22 @@ ASSUMPTIONS = ['the map is only instantiated for OPN2::Bank', 'handles passed to
 BM = 'BasicBankMap<OPN2::Bank>'
 
 
+def slot_locals(fn):
+    """ids of the locals that hold a slot obtained from the map: assigned from bucket_find / allocate_slot / ensure_allocate_slot"""
+    ids = set()
+    for x in walk(fn.tree):
+        if not isinstance(x, dict):
+            continue
+        if x.get('k') == 'DeclStmt':
+            for v in x.get('decls', []):
+                if v.get('init') is not None and short(callee_name(strip(v['init']))) in ('bucket_find', 'allocate_slot', 'ensure_allocate_slot'):
+                    ids.add(v['id'])
+        ap = assign_parts_raw(x)
+        if ap and strip(ap[0]).get('k') == 'DeclRefExpr' and short(callee_name(strip(ap[1]))) in ('bucket_find', 'allocate_slot', 'ensure_allocate_slot'):
+            ids.add(strip(ap[0])['id'])
+    return ids
+
+
 def views(tier):
     return ['V0'] if tier == 'quick' else ['V0', 'V1', 'noSEQ']
 
@@ -123,9 +139,10 @@ def analyse(facts, tier):
             for x in calls_in(st['s']):
                 if short(callee_name(x)) == 'allocate_slot':
                     alloc_pos = (b, j)
+        slot_ids = slot_locals(fn)
         for b, j, st in fn.cfg.returns():
             gf = guard_facts(fn, b, st)
-            if any(f[0] == 'truth' and f[2] and short(strip(f[1]).get('n', '')) == 'slot' for f in gf) and alloc_pos and not fn.cfg.stmt_before(alloc_pos, (b, j)):
+            if any(f[0] == 'truth' and f[2] and strip(f[1]).get('id') in slot_ids for f in gf) and alloc_pos and not fn.cfg.stmt_before(alloc_pos, (b, j)):
                 found_first = True
         obls.append(Obl('C16.R2', fn.name, '%s insert returns the existing entry' % name, fn.loc, 'discharged' if found_first else 'finding',
                         why='bucket_find hit -> return before a slot is taken' if found_first else 'an existing key is not returned before allocating: duplicate entries'))
@@ -133,7 +150,7 @@ def analyse(facts, tier):
     for b, j, st in rt.cfg.returns():
         if any(short(callee_name(x)) == 'end' for x in calls_in(st['s'])):
             gf = guard_facts(rt, b, st)
-            only_null = any(f[0] == 'truth' and not f[2] and short(strip(f[1]).get('n', '')) == 'slot' for f in gf)
+            only_null = any(f[0] == 'truth' and not f[2] and strip(f[1]).get('id') in slot_locals(rt) for f in gf)
             after_alloc = any(short(callee_name(x)) == 'allocate_slot' and rt.cfg.stmt_before((b2, j2), (b, j)) for b2, j2, st2 in rt.cfg.stmts() for x in calls_in(st2['s']))
             fail = (st, only_null and after_alloc)
     obls.append(Obl('C16.R2', rt.name, 'fails only when allocate_slot() returned NULL', fail[0]['loc'] if fail else rt.loc, 'discharged' if fail and fail[1] else 'finding',
@@ -147,7 +164,10 @@ def analyse(facts, tier):
                 if is_incdec(x) and x['op'] == '++' and short(strip(x['e']).get('n', '')) == 'm_size':
                     seq.append('size')
                 ap = assign_parts(x)
-                if ap and 'slot->value' in show(ap[0]) or (x.get('k') == 'CXXOperatorCallExpr' and short(x.get('callee', '')) == 'operator=' and 'slot->value' in show(x['a'][0])):
+                def slot_value(e_):
+                    e_ = strip(e_)
+                    return e_.get('k') == 'MemberExpr' and short(e_['n']) == 'value' and 'Slot' in e_['n']
+                if (ap and slot_value(ap[0])) or (x.get('k') == 'CXXOperatorCallExpr' and short(x.get('callee', '')) == 'operator=' and x.get('a') and slot_value(x['a'][0])):
                     seq.append('value')
         ok = 'add' in seq and 'size' in seq and 'value' in seq
         obls.append(Obl('C16.R2', fn.name, 'store value, link into bucket, count', fn.loc, 'discharged' if ok else 'finding', why=','.join(seq)))
@@ -198,14 +218,14 @@ def analyse(facts, tier):
     obls.append(Obl('C16.R5', er.name, 'unlink, free, count', er.loc, 'discharged' if ok else 'finding', why=' ; '.join(seq)))
     fs = facts.fn(BM + '::free_slot')
     reset = any('value.second' in show(x['a'][0]) and short(x.get('callee', '')) == 'operator=' for b, j, st in fs.cfg.stmts() for x in walk(st['s']) if x.get('k') == 'CXXOperatorCallExpr' and x.get('a'))
-    head = any(assign_parts(x) and short(strip(assign_parts(x)[0]).get('n', '')) == 'm_freeslots' and short(strip(assign_parts(x)[1]).get('n', '')) == 'slot' for b, j, st in fs.cfg.stmts() for x in walk(st['s']))
+    head = any(assign_parts(x) and short(strip(assign_parts(x)[0]).get('n', '')) == 'm_freeslots' and strip(assign_parts(x)[1]).get('id') == fs.params[0]['id'] for b, j, st in fs.cfg.stmts() for x in walk(st['s']))
     obls.append(Obl('C16.R5', fs.name, 'freed slot becomes the list head with a reset value', fs.loc, 'discharged' if (reset and head) else 'finding', why='m_freeslots = slot; value.second = T()' if (reset and head) else 'freed slots keep their old bank (reset=%s, head=%s)' % (reset, head)))
     cl = facts.fn(BM + '::clear')
     hb = None
     for b in cl.d['blocks']:
         c = b.get('cond')
-        if c is not None and strip(c).get('k') == 'BinaryOperator' and strip(c)['op'] == '<' and short(strip(strip(c)['l']).get('n', '')) == 'i':
-            hb = const_of(strip(c)['r'])
+        if c is not None and strip(c).get('k') == 'BinaryOperator' and strip(c)['op'] == '<' and strip(strip(c)['l']).get('k') == 'DeclRefExpr' and const_of(strip(c)['r']) is not None:
+            hb = const_of(strip(c)['r'])        # the counted loop over the buckets
     frees = any(short(callee_name(x)) == 'free_slot' for b, j, st in cl.cfg.stmts() for x in calls_in(st['s']))
     nulls = any(assign_parts(x) and 'm_buckets' in show(assign_parts(x)[0]) and (const_of(assign_parts(x)[1]) == 0 or strip(assign_parts(x)[1]).get('k') in ('GNUNullExpr', 'CXXNullPtrLiteralExpr')) for b, j, st in cl.cfg.stmts() for x in walk(st['s']))
     zero = any(assign_parts(x) and short(strip(assign_parts(x)[0]).get('n', '')) == 'm_size' and const_of(assign_parts(x)[1]) == 0 for b, j, st in cl.cfg.stmts() for x in walk(st['s']))
@@ -214,7 +234,11 @@ def analyse(facts, tier):
     obls.append(Obl('C16.R5', cl.name, 'every slot of every bucket freed, heads and size zeroed', cl.loc, 'discharged' if ok else 'finding',
                     why='loop over %s buckets' % hb if ok else 'clear is incomplete (buckets %s/%s, frees=%s, heads=%s, size=%s)' % (hb, nb, frees, nulls, zero)))
     al = facts.fn(BM + '::allocate_slot')
-    okh = any(assign_parts(x) and short(strip(assign_parts(x)[0]).get('n', '')) == 'm_freeslots' and short(strip(assign_parts(x)[1]).get('n', '')) == 'next' for b, j, st in al.cfg.stmts() for x in walk(st['s']))
+    sd_al = single_defs(al.d)
+    def is_next_link(e_):
+        e_ = strip(subst(strip(e_), sd_al))
+        return e_.get('k') == 'MemberExpr' and short(e_['n']) == 'next'
+    okh = any(assign_parts(x) and short(strip(assign_parts(x)[0]).get('n', '')) == 'm_freeslots' and is_next_link(assign_parts(x)[1]) for b, j, st in al.cfg.stmts() for x in walk(st['s']))
     obls.append(Obl('C16.R5', al.name, 'taking a slot advances the free list', al.loc, 'discharged' if okh else 'finding', why='m_freeslots = slot->next'))
     it = facts.fn(BM + '::iterator::operator++', required=False)
     if it:
@@ -332,18 +356,43 @@ def analyse(facts, tier):
     # ---- R6
     br = facts.fn(BM + '::bucket_remove')
     cfg = br.cfg
-    test_next = [bid for bid, b in cfg.blocks.items() if b.get('cond') is not None and short(strip(b['cond']).get('n', '')) == 'next']
+    # roles: the slot and the bucket index are the parameters; P / N are the locals initialised from slot->prev / slot->next
+    def fld(e, name, base_id=None):
+        e = strip(e)
+        return e.get('k') == 'MemberExpr' and short(e['n']) == name and (base_id is None or strip(e.get('b') or {}).get('id') == base_id)
+    def local_from(fn_, pred):
+        for x in walk(fn_.tree):
+            if isinstance(x, dict) and x.get('k') == 'DeclStmt':
+                for v in x.get('decls', []):
+                    if v.get('init') is not None and pred(v['init']):
+                        return v['id']
+        return None
+    def bucket_head(e, idx_id):
+        e = strip(e)
+        if e.get('k') == 'CXXOperatorCallExpr' and short(e.get('callee', '')) == 'operator[]' and len(e.get('a', [])) == 2:
+            return mentions(e['a'][0], member_named('m_buckets')) and strip(e['a'][1]).get('id') == idx_id
+        return e.get('k') == 'ArraySubscriptExpr' and mentions(e['b'], member_named('m_buckets')) and strip(e['i']).get('id') == idx_id
+    r_idx, r_slot = br.params[0]['id'], br.params[1]['id']
+    P = local_from(br, lambda e: fld(e, 'prev', r_slot))
+    N = local_from(br, lambda e: fld(e, 'next', r_slot))
+    if P is None or N is None:
+        raise build.AnalysisBroken('C16.R6: bucket_remove does not read slot->prev / slot->next into locals')
+    test_next = [bid for bid, b in cfg.blocks.items() if b.get('cond') is not None and strip(b['cond']).get('id') == N]
     pd = cfg.pdom().get(('b', cfg.entry)) or ()
     ok = bool(test_next) and ('b', test_next[0]) in pd
-    back = any(assign_parts(x) and show(assign_parts(x)[0]) == 'next->prev' and short(strip(assign_parts(x)[1]).get('n', '')) == 'prev' for b, j, st in cfg.stmts() for x in walk(st['s']))
-    fwd = any(assign_parts(x) and show(assign_parts(x)[0]) == 'prev->next' for b, j, st in cfg.stmts() for x in walk(st['s'])) and any(assign_parts(x) and 'm_buckets[index]' in show(assign_parts(x)[0]) for b, j, st in cfg.stmts() for x in walk(st['s']))
+    asg = [assign_parts(x) for b, j, st in cfg.stmts() for x in walk(st['s']) if assign_parts(x)]
+    back = any(fld(a[0], 'prev', N) and strip(a[1]).get('id') == P for a in asg)
+    fwd = any(fld(a[0], 'next', P) and strip(a[1]).get('id') == N for a in asg) and any(bucket_head(a[0], r_idx) and strip(a[1]).get('id') == N for a in asg)
     obls.append(Obl('C16.R6', br.name, 'successor back-link updated on every path', br.loc, 'discharged' if (ok and back) else 'finding',
                     why='`if(next) next->prev = prev` post-dominates the entry' if (ok and back) else 'a path unlinks the slot without fixing next->prev: the chain keeps a pointer to a freed slot'))
     obls.append(Obl('C16.R6', br.name, 'predecessor / bucket head forward link updated', br.loc, 'discharged' if fwd else 'finding', why='m_buckets[index] = next or prev->next = next'))
     ba = facts.fn(BM + '::bucket_add')
-    oka = any(assign_parts(x) and show(assign_parts(x)[0]) == 'next->prev' and short(strip(assign_parts(x)[1]).get('n', '')) == 'slot' for b, j, st in ba.cfg.stmts() for x in walk(st['s'])) and \
-        any(assign_parts(x) and show(assign_parts(x)[0]) == 'slot->next' for b, j, st in ba.cfg.stmts() for x in walk(st['s'])) and \
-        any(assign_parts(x) and 'm_buckets[index]' in show(assign_parts(x)[0]) and short(strip(assign_parts(x)[1]).get('n', '')) == 'slot' for b, j, st in ba.cfg.stmts() for x in walk(st['s']))
+    a_idx, a_slot = ba.params[0]['id'], ba.params[1]['id']
+    AN = local_from(ba, lambda e: bucket_head(e, a_idx))
+    asg = [assign_parts(x) for b, j, st in ba.cfg.stmts() for x in walk(st['s']) if assign_parts(x)]
+    oka = AN is not None and any(fld(a[0], 'prev', AN) and strip(a[1]).get('id') == a_slot for a in asg) and \
+        any(fld(a[0], 'next', a_slot) and strip(a[1]).get('id') == AN for a in asg) and \
+        any(bucket_head(a[0], a_idx) and strip(a[1]).get('id') == a_slot for a in asg)
     obls.append(Obl('C16.R6', ba.name, 'new head linked in both directions', ba.loc, 'discharged' if oka else 'finding', why='next->prev = slot; slot->next = next; m_buckets[index] = slot'))
     # head invariant: bucket_remove recognises the head of a chain by prev == NULL and bucket_add never stores slot->prev, so
     # (i) every slot that becomes the free-list head has its prev cleared in the same function, and (ii) bucket_add only receives
@@ -351,7 +400,7 @@ def analyse(facts, tier):
     def is_null(e):
         e = strip(e)
         return e is not None and (const_of(e) == 0 or e.get('k') in ('GNUNullExpr', 'CXXNullPtrLiteralExpr'))
-    clears_in_add = any(assign_parts(x) and show(strip(assign_parts(x)[0])) == 'slot->prev' and is_null(assign_parts(x)[1]) for b, j, st in ba.cfg.stmts() for x in walk(st['s']))
+    clears_in_add = any(assign_parts(x) and fld(assign_parts(x)[0], 'prev', a_slot) and is_null(assign_parts(x)[1]) for b, j, st in ba.cfg.stmts() for x in walk(st['s']))
     nh = 0
     for fname in ('free_slot', 'allocate_slot'):
         fn = facts.fn(BM + '::' + fname)
@@ -393,7 +442,7 @@ def analyse(facts, tier):
                                 'a slot becomes the free-list head with a stale prev link: once recycled into a bucket, bucket_remove mistakes it for a non-head slot and splices the chain through a foreign slot (stale lookups, self-linked chains)'))
     if nh < 2:
         raise build.AnalysisBroken('C16.R6: stores of m_freeslots not found in free_slot/allocate_slot')
-    clears_in_add = any(assign_parts(x) and show(strip(assign_parts(x)[0])) == 'slot->prev' and is_null(assign_parts(x)[1]) for b, j, st in ba.cfg.stmts() for x in walk(st['s']))
+    clears_in_add = any(assign_parts(x) and fld(assign_parts(x)[0], 'prev', a_slot) and is_null(assign_parts(x)[1]) for b, j, st in ba.cfg.stmts() for x in walk(st['s']))
     srcs = []
     for fn in facts.all_fns():
         if not fn.name.startswith(BM + '::') or fn.tree is None:
@@ -440,36 +489,46 @@ def analyse(facts, tier):
     rec(rs.tree)
     okr = False
     form = ''
+    # roles: N = the local added to m_capacity (the number of new slots), i = the counter of the loop that frees them
+    need_id = None
+    for b, j, st in rs.cfg.stmts():
+        for x in walk(st['s']):
+            ap = assign_parts(x)
+            if ap and ap[2] == '+=' and short(strip(ap[0]).get('n', '')) == 'm_capacity' and strip(ap[1]).get('k') == 'DeclRefExpr':
+                need_id = strip(ap[1])['id']
     for l in loops:
         if not mentions(l.get('body'), lambda y: short(callee_name(y)) == 'free_slot'):
             continue
         c = strip(l['cond']) if l.get('cond') else {}
         init = l.get('init')
+        iv_id = init_e = None
+        if init is not None and init.get('k') == 'DeclStmt' and init.get('decls'):
+            iv_id, init_e = init['decls'][0]['id'], init['decls'][0].get('init')
+        elif init is not None and assign_parts(init):
+            iv_id, init_e = strip(assign_parts(init)[0]).get('id'), assign_parts(init)[1]
         body_idx = None
         for x in walk(l.get('body')):
             if short(callee_name(x)) == 'free_slot':
                 for y in walk(x['a']):
                     if y.get('k') == 'CXXOperatorCallExpr' and short(y.get('callee', '')) == 'operator[]':
-                        body_idx = show(strip(y['a'][1]))
-        form = 'init=%s cond=%s inc=%s index=%s' % (show(init) if init else '', show(c), show(l.get('inc')) if l.get('inc') else '', body_idx)
-        def init_val(name_wanted=None):
-            if init is None:
-                return None
-            if init.get('k') == 'DeclStmt':
-                return show(strip(init['decls'][0]['init'])) if 'init' in init['decls'][0] else None
-            ap = assign_parts(init)
-            return show(strip(ap[1])) if ap else None
-        iv = init_val()
-        # down-counting: for(i = need; i-- > 0;) ... [i]
-        if iv == 'need' and c.get('k') == 'BinaryOperator' and c['op'] == '>' and const_of(c['r']) == 0 and is_incdec(strip(c['l'])) and strip(c['l'])['op'] == '--' and strip(c['l']).get('post') and body_idx == 'i':
+                        body_idx = strip(y['a'][1])
+        form = 'init=%s cond=%s inc=%s index=%s' % (show(init) if init else '', show(c), show(l.get('inc')) if l.get('inc') else '', show(body_idx) if body_idx else None)
+        def is_iv(e):
+            return e is not None and strip(e).get('k') == 'DeclRefExpr' and strip(e).get('id') == iv_id
+        def is_need(e):
+            return e is not None and strip(e).get('k') == 'DeclRefExpr' and strip(e).get('id') == need_id
+        idx_minus1 = body_idx is not None and body_idx.get('k') == 'BinaryOperator' and body_idx.get('op') == '-' and is_iv(body_idx['l']) and const_of(body_idx['r']) == 1
+        # down-counting: for(i = N; i-- > 0;) ... [i]
+        if is_need(init_e) and c.get('k') == 'BinaryOperator' and c['op'] == '>' and const_of(c['r']) == 0 and is_incdec(strip(c['l'])) and strip(c['l'])['op'] == '--' and strip(c['l']).get('post') \
+                and is_iv(strip(c['l'])['e']) and is_iv(body_idx):
             okr = True
-        # up-counting: for(i = 0; i < need; ++i) ... [i]
-        if iv == '0' and c.get('k') == 'BinaryOperator' and c['op'] == '<' and show(strip(c['r'])) == 'need' and body_idx == 'i':
+        # up-counting: for(i = 0; i < N; ++i) ... [i]
+        if init_e is not None and const_of(init_e) == 0 and c.get('k') == 'BinaryOperator' and c['op'] == '<' and is_iv(c['l']) and is_need(c['r']) and is_iv(body_idx):
             okr = True
-        # down-counting with explicit decrement: for(i = need; i > 0; --i) ... [i - 1]
-        if iv == 'need' and c.get('k') == 'BinaryOperator' and c['op'] == '>' and const_of(c['r']) == 0 and body_idx == '(i - 1)':
+        # down-counting with explicit decrement: for(i = N; i > 0; --i) ... [i - 1]
+        if is_need(init_e) and c.get('k') == 'BinaryOperator' and c['op'] == '>' and const_of(c['r']) == 0 and is_iv(c['l']) and idx_minus1:
             okr = True
-    cap = any(assign_parts(x) and assign_parts(x)[2] == '+=' and short(strip(assign_parts(x)[0]).get('n', '')) == 'm_capacity' and show(strip(assign_parts(x)[1])) == 'need' for b, j, st in rs.cfg.stmts() for x in walk(st['s']))
+    cap = need_id is not None
     obls.append(Obl('C16.R6', rs.name, 'every new slot goes to the free list; capacity grows by the same count', rs.loc, 'discharged' if (okr and cap) else 'finding',
                     why=form if (okr and cap) else 'cannot establish that all `need` new slots are handed to the free list while the capacity grows by `need` (%s)' % form))
     obls += r7_converters_total(facts)
